@@ -605,6 +605,9 @@ struct Hist {
     saves: Vec<i64>,
     next_ix: i64,
     profile: Profile,
+    /// the open transaction began over a UNIQUE index whose table already held duplicate keys:
+    /// ROLLBACK would re-create indexes in HashMap order and stop at the refused one (not reproducible)
+    no_rollback: bool,
 }
 
 fn gen_pred(r: &mut Rng, ncols: usize, depth: u32) -> Pred {
@@ -857,8 +860,7 @@ fn gen_stmt(r: &mut Rng, h: &Hist, cur: &[TObs]) -> Stmt {
             87..=89 => return Stmt::Begin,
             90 | 91 => return Stmt::Commit,
             92 | 93 => {
-                if !allow_del && allow_uidx {
-                    // the "no stale index" profile also avoids ROLLBACK
+                if h.no_rollback {
                     continue;
                 }
                 return Stmt::Rollback;
@@ -937,7 +939,7 @@ fn scripted(k: usize) -> Option<(Vec<Decl>, Vec<Stmt>)> {
         // composite key declared out of column order (repaired: probe keys are built in declaration order)
         8 => (vec![base_decl(3, Some(vec![1, 0]), vec![], &[]), plain()], vec![ins(0, &[&[1, 2, 0]]), ins(0, &[&[2, 1, 0]]), ins(0, &[&[1, 2, 1]])]),
         9 => (vec![base_decl(3, Some(vec![0]), vec![vec![2, 1]], &[]), plain()], vec![ins(0, &[&[1, 1, 2]]), ins(0, &[&[2, 2, 1]]), ins(0, &[&[3, 1, 2]])]),
-        // CREATE UNIQUE INDEX / ALTER TABLE ADD UNIQUE / PRIMARY KEY / CHECK over rows that violate it
+        // CREATE UNIQUE INDEX over duplicates is refused (repaired); ALTER TABLE ADD UNIQUE / PRIMARY KEY / CHECK over rows that violate it
         10 => (vec![pk0(), plain()], vec![ins(0, &[&[1, 10, 0], &[2, 10, 0]]), Stmt::CreateIndex { name: 1, t: 0, uniq: true, cols: vec![1] }]),
         11 => (vec![pk0(), plain()], vec![ins(0, &[&[1, 10, 0], &[2, 10, 0]]), Stmt::AddUnique { t: 0, cols: vec![1] }]),
         12 => (vec![plain(), plain()], vec![ins(0, &[&[1, 10, 0], &[1, 20, 0]]), Stmt::AddPk { t: 0, cols: vec![0] }]),
@@ -951,7 +953,7 @@ fn scripted(k: usize) -> Option<(Vec<Decl>, Vec<Stmt>)> {
             vec![pk0(), plain()],
             vec![Stmt::AddCheck { t: 0, c: Pred::CmpC(1, Op::Lt, 5) }, Stmt::AddUnique { t: 0, cols: vec![2] }, ins(0, &[&[1, 1, 0]]), ins(0, &[&[2, 9, 1]])],
         ),
-        // ROLLBACK / ROLLBACK TO SAVEPOINT leave user indexes as they were (C13 / C14)
+        // ROLLBACK rebuilds the user indexes (repaired); ROLLBACK TO SAVEPOINT leaves them as they were (C14)
         16 => (vec![pk0(), plain()], vec![Stmt::CreateIndex { name: 1, t: 0, uniq: false, cols: vec![1] }, ins(0, &[&[1, 10, 0]]), Stmt::Begin, ins(0, &[&[2, 20, 0]]), Stmt::Rollback]),
         17 => (
             vec![pk0(), plain()],
@@ -1234,7 +1236,7 @@ pub fn run(prop: Prop) {
             must(&mut db, &d.create_sql(t));
         }
         let schemas: Vec<String> = decls.iter().enumerate().map(|(t, d)| schema_coq(&db, t, d)).collect();
-        let mut hist = Hist { decl: decls, in_txn: false, saves: vec![], next_ix: 1, profile };
+        let mut hist = Hist { decl: decls, in_txn: false, saves: vec![], next_ix: 1, profile, no_rollback: false };
         // declared state at BEGIN (ROLLBACK restores catalog + tables; user indexes are outside)
         let mut txn_decl: Option<Vec<Decl>> = None;
         let mut dirty = false;
@@ -1325,6 +1327,7 @@ pub fn run(prop: Prop) {
                     }
                     Stmt::AddCheck { t, c } => hist.decl[*t].checks.push((c.clone(), true)),
                     Stmt::Begin => {
+                        hist.no_rollback = (0..hist.decl.len()).any(|t| check_constraints(&hist.decl[t], &cur[t].rows).iter().any(|v| matches!(v, Viol::UniqIndex(_))));
                         hist.in_txn = true;
                         hist.saves.clear();
                         txn_decl = Some(hist.decl.clone());
